@@ -28,7 +28,7 @@ CHECKS = {
          "Documents with 1..=6 layers of every flag combination, mode, colour tag, offset (negative too), size incl. 0 and > 255, Unicode and 300-character titles, short- and long-form cells incl. characters above 0xFFFF, colours above 255 and the transparent colour, palettes of 1..=300 colours, font slots up to 300 with built-in and custom glyphs, with and without SAUCE are saved and loaded; size, modes, every layer property, every cell inside the layer size, palette, every font slot and the SAUCE fields must come back. Loader robustness on mutated chunk streams is C02/C03's matter. Palettes include prefixes, copies, extensions and one-colour variations of the stock DOS palette; slot 0 also holds built-in pages whose names exceed the SAUCE font field, with SAUCE.",
          "Sizes stay mostly below 40x20 because every save PNG-encodes a preview. Invisible cells are compared as invisible only.", "DESIGN.md §4 C07"),
  "C08": ("recorded operation histories on the real EditState checked against snapshots taken at every operation boundary (history + snapshot model): full undo walk, full redo walk, random undo/redo walk and redo-discard check, exhaustive short histories plus seeded long ones, violations shrunk by delta debugging over operations and layers",
-         "After every operation that returns Ok the harness records (undo stack length, snapshot of size, modes, palette, fonts, SAUCE and per layer position, properties, size, offset and every cell get_char shows). Undo must return Ok, never panic and bring back, at every stack length that is an operation boundary, the snapshot of that boundary; redo likewise up to the final state; both rounds are run twice; a random walk over undo/redo revisits the boundaries; a new edit after an undo must empty the redo history. All histories of length <=2 over a 70-operation instantiated alphabet on 3 documents are enumerated (length 3: complete in thorough, 20000 sampled in quick) plus 30k (quick) / 400k (thorough) random histories of up to 40 operations on 1..=3-layer documents with alpha, offset, hidden and locked layers. The alphabet (70 instantiated operations) includes the font-table, palette-replacement, SAUCE, layer-property, floating-layer and sixel-paste operations; documents come in every font / ice / palette mode with up to three fonts, bright backgrounds and blinking cells.",
+         "After every operation that returns Ok the harness records (undo stack length, snapshot of size, modes, palette, fonts, SAUCE and per layer position, properties, size, offset and every cell get_char shows). Undo must return Ok, never panic and bring back, at every stack length that is an operation boundary, the snapshot of that boundary; redo likewise up to the final state; both rounds are run twice; a random walk over undo/redo revisits the boundaries; a new edit after an undo must empty the redo history. All histories of length <=2 over a 71-operation instantiated alphabet on 3 documents are enumerated (length 3: complete in thorough, 20000 sampled in quick) plus 30k (quick) / 400k (thorough) random histories of up to 40 operations on 1..=3-layer documents with alpha, offset, hidden and locked layers. The alphabet (71 instantiated operations) includes the font-table, palette-replacement, SAUCE, layer-property, floating-layer and sixel-paste operations; documents come in every font / ice / palette mode with up to three fonts, bright backgrounds and blinking cells.",
          "Selection, caret and current layer are editor state, not document state. Cells hidden by a smaller layer size are compared when an undo makes them visible again. An operation that panics or returns Err ends the history before it (counted in the evidence; C08 speaks about operations that report success).", "DESIGN.md §4 C08"),
  "C12": ("render differential on the real renderer: Buffer::render_to_rgba of a document and of ColorOptimizer::optimize(document) compared byte for byte, first differing pixel mapped back to its cell (runtime observational oracle)",
          "Documents of 1..=4 layers whose font slot 0 cycles through every built-in font page 0..=42 and every SAUCE font, cells over all 256 glyphs with the blank glyphs and the solid block over-represented, DOS and RGB colours, bold, both whitespace settings; every (font page, glyph) pair is rendered at least once in thorough.",
